@@ -255,7 +255,7 @@ def main():
 
 
 # fix: commits in /repo (filled in as they are made)
-SOURCE_COMMITS = ["1caf915", "cac9d7b", "4b729bd", "9cd2617", "683fb85", "e7ddae4", "48f0694", "9e68f28", "6f83c95", "8bae1ec", "c21f59a", "aefebdb", "f8501c3", "6c3921a", "3ad4ac4", "12dda7b", "648be3c", "eaa676f", "fd1be8a", "e155805", "2f5c11e", "3ee76de", "f51941c", "7de6c51", "11ee1a3", "9f3055f", "fd6cb1e", "aa7ba33", "d24daa2", "6ae39b2", "827b35e", "e7495fa", "bd629d4"]
+SOURCE_COMMITS = ["1caf915", "cac9d7b", "4b729bd", "9cd2617", "683fb85", "e7ddae4", "48f0694", "9e68f28", "6f83c95", "8bae1ec", "c21f59a", "aefebdb", "f8501c3", "6c3921a", "3ad4ac4", "12dda7b", "648be3c", "eaa676f", "fd1be8a", "e155805", "2f5c11e", "3ee76de", "f51941c", "7de6c51", "11ee1a3", "9f3055f", "fd6cb1e", "aa7ba33", "d24daa2", "6ae39b2", "827b35e", "e7495fa", "bd629d4", "0da6ad6", "baed95a"]
 
 if __name__ == "__main__":
     main()
